@@ -119,22 +119,22 @@ def parseSpec (spec0 : Text) : Option VersionSpec :=
 /-- `VersionRange::satisfies` -/
 def satisfiesRange (r : VersionRange) (version : Version) : Bool :=
   match r with
-  | .exact v => version == v
+  | .exact v => peq version v
   | .caret v =>
-    if lt version v then false
+    if plt version v then false
     else if v.major == 0 then
       if v.minor == 0 then version.major == 0 && version.minor == 0 && version.patch == v.patch
       else version.major == 0 && version.minor == v.minor
     else version.major == v.major
-  | .tilde v => ge version v && version.major == v.major && version.minor == v.minor
-  | .gte v => ge version v
-  | .gt v => gt version v
-  | .lte v => le version v
-  | .lt v => lt version v
+  | .tilde v => pge version v && version.major == v.major && version.minor == v.minor
+  | .gte v => pge version v
+  | .gt v => pgt version v
+  | .lte v => ple version v
+  | .lt v => plt version v
   | .any => true
   | .wildcardMajor m => version.major == m
   | .wildcardMinor m n => version.major == m && version.minor == n
-  | .hyphen f t => ge version f && le version t
+  | .hyphen f t => pge version f && ple version t
 
 /-- `VersionRange::base_version` -/
 def baseRange : VersionRange → Option Version
@@ -184,7 +184,7 @@ def compareToLatest (current latest : Text) : CompareResult :=
       if satisfies spec l then .latest
       else match baseVersion spec with
         | none => .latest
-        | some base => if lt base l then .outdated else .newer
+        | some base => if plt base l then .outdated else .newer
 
 def matcher : Matcher := ⟨versionExists, compareToLatest⟩
 
